@@ -178,6 +178,12 @@ func runC06Manager(env *Env, rc *RunCtx) {
 		shared = append(shared, mkT(i))
 	}
 	blockN := []int{0, 5, 99, 100, 101, 150, 250}[t.Choose(7)]
+	if t.Bool(1, 20) {
+		// now and then a block of several hundred or more than a thousand rows: sizes
+		// around which a bulk statement would plausibly be sliced
+		blockN = []int{499, 500, 501, 1000, 1001, 1300}[t.Weighted(2, 2, 2, 1, 1, 1)]
+		rc.Count("probe_block_of_500_plus", 1)
+	}
 	block := bulk(blockN, "blk")
 	for b := 1; b < nNets; b++ {
 		all := append(append([]*relationtuple.RelationTuple(nil), shared...), block...)
@@ -322,6 +328,14 @@ func runC06Manager(env *Env, rc *RunCtx) {
 			base := mkT(0)
 			if len(shared) > 0 {
 				base = shared[t.Choose(len(shared))]
+			}
+			if len(block) > 0 && t.Bool(1, 2) {
+				// a query that matches the whole block (never pinned to one object)
+				base = block[0]
+				sh &^= 2
+				if sh == 0 {
+					sh = 1
+				}
 			}
 			if sh&1 != 0 {
 				q.Namespace = &base.Namespace
